@@ -622,6 +622,32 @@ class ExtMixin(object):
             return obj
         self.err(node, "external object %s cannot be inspected" % v.name)
 
+    # -- functools.lru_cache / functools.cache: results remembered per argument tuple for the life of the process
+    def memo_key(self, v):
+        """how the cache's dictionary identifies an argument: values by value; objects by identity, except that a
+        wrapt.ObjectProxy hashes and compares as the object it wraps"""
+        is_proxy = getattr(self, "is_proxy", None)
+        if is_proxy is not None and is_proxy(v):
+            w = v.attrs.get("__wrapped__")
+            if w is not None:
+                return self.memo_key(w)
+        if isinstance(v, InstV):
+            return ("object", id(v))
+        return v.key()
+
+    def x_functools_lru_cache(self, args, kwargs, node, env):
+        if len(args) == 1 and not kwargs and isinstance(args[0], FuncV):
+            return PyObjV(_Memo(args[0]))                 # used bare: @lru_cache
+        if len(args) > 2 or set(kwargs) - {"maxsize", "typed"}:
+            self.err(node, "lru_cache arguments")
+        _ = (args, kwargs)                                # eviction is not modelled: the cache is taken to be large enough
+        return PyObjV(_MemoDecorator())
+
+    def x_functools_cache(self, args, kwargs, node, env):
+        if len(args) == 1 and not kwargs and isinstance(args[0], FuncV):
+            return PyObjV(_Memo(args[0]))
+        self.err(node, "functools.cache arguments")
+
     def x_object(self, args, kwargs, node, env):
         if args or kwargs:
             self.err(node, "object() takes no arguments")
@@ -1390,6 +1416,32 @@ class LoggerV(V):
 
     def __deepcopy__(self, memo):
         return self
+
+
+class _Memo(object):
+    """a function wrapped by functools.lru_cache"""
+    def __init__(self, fn):
+        self.fn = fn
+        self.memo = {}
+
+    def m___call__(self, I, args, kwargs):
+        key = (tuple(I.memo_key(a) for a in args), tuple(sorted((k, I.memo_key(v)) for k, v in kwargs.items())))
+        if key not in self.memo:
+            self.memo[key] = I.call(self.fn, list(args), dict(kwargs))
+        return self.memo[key]
+
+    def m_cache_clear(self, I, args, kwargs):
+        if args or kwargs:
+            raise AnalysisError("cache_clear arguments")
+        self.memo.clear()
+        return NONE
+
+
+class _MemoDecorator(object):
+    def m___call__(self, I, args, kwargs):
+        if kwargs or len(args) != 1 or not isinstance(args[0], FuncV):
+            raise AnalysisError("lru_cache applied to %r" % (args,))
+        return PyObjV(_Memo(args[0]))
 
 
 class IterV(V):
